@@ -248,6 +248,13 @@ def _sb_val_at(ex, st, args, kwargs):
 def _sb_same_dict(ex, st, args, kwargs):
     """Same keys, same values, same insertion order."""
     a, b = st.deref(args[0]), st.deref(args[1])
+    if isinstance(a, PDict) and isinstance(b, PDict):
+        yield st, list(a.items.items()) == list(b.items.items())
+        return
+    if isinstance(a, PDict):
+        a = bm.pdict_to_sdict(a, b.ksort, b.vsort)
+    if isinstance(b, PDict):
+        b = bm.pdict_to_sdict(b, a.ksort, a.vsort)
     yield st, SV("bool", bm.sdict_equal(a, b, ordered=True))
 
 
@@ -403,6 +410,18 @@ def _sb_some(ex, st, args, kwargs):
         yield st, v
 
 
+def _sb_call_kwarg(ex, st, args, kwargs):
+    """call_kwarg('Kind.meth', 'name'): keyword argument of the single recorded call."""
+    name, key = args
+    calls = [ev for ev in st.trace if ev[0] == "call" and ev[1] == name]
+    if len(calls) != 1:
+        raise Unsupported(f"call_kwarg: {len(calls)} recorded calls of {name}")
+    kw = dict(calls[0][4])
+    if key not in kw:
+        raise Unsupported(f"call_kwarg: {name} was not called with keyword {key}")
+    yield st, kw[key]
+
+
 def _sb_py_strip(ex, st, args, kwargs):
     (s,) = args
     for st1, w in ex.narrow(st, s):
@@ -412,7 +431,7 @@ def _sb_py_strip(ex, st, args, kwargs):
             yield st1, bm.model_strip(ex, st1, w)
 
 
-SPEC_BUILTINS = {"some": _sb_some, "index_at": _sb_index_at, "strip_blank": _sb_strip_blank, "pos_of": _sb_pos_of, "call_arg": _sb_call_arg, "unmodified": _sb_unmodified, "uf": _sb_uf, "called": _sb_called, "py_isalpha": _sb_py_isalpha, "py_isdigit": _sb_py_isdigit, "int_of_signed": _sb_int_of_signed, "strip_padded": _sb_strip_padded, "strip_unique": _sb_strip_unique, "py_strip": _sb_py_strip, "pad": _sb_pad, "matches": _sb_matches, "nat": _sb_nat, "key_at": _sb_key_at, "val_at": _sb_val_at,
+SPEC_BUILTINS = {"call_kwarg": _sb_call_kwarg, "some": _sb_some, "index_at": _sb_index_at, "strip_blank": _sb_strip_blank, "pos_of": _sb_pos_of, "call_arg": _sb_call_arg, "unmodified": _sb_unmodified, "uf": _sb_uf, "called": _sb_called, "py_isalpha": _sb_py_isalpha, "py_isdigit": _sb_py_isdigit, "int_of_signed": _sb_int_of_signed, "strip_padded": _sb_strip_padded, "strip_unique": _sb_strip_unique, "py_strip": _sb_py_strip, "pad": _sb_pad, "matches": _sb_matches, "nat": _sb_nat, "key_at": _sb_key_at, "val_at": _sb_val_at,
                  "same_dict": _sb_same_dict}
 
 
@@ -1082,6 +1101,11 @@ def _havoc_dict(st, d: SDict):
 # ---------------------------------------------------------------------------
 # per-function driver
 # ---------------------------------------------------------------------------
+MAX_PATHS = 600
+MAX_OBLIGATIONS = 4000
+MAX_SECONDS = 240
+
+
 class FunctionResult:
     def __init__(self, contract):
         self.contract = contract
@@ -1177,7 +1201,9 @@ def verify_function(db: ContractDB, c: Contract, case=None) -> FunctionResult:
                 if d is None:
                     raise SourceError(f"{c.key}: parameter {nm} has no sort in the contract")
                 env[nm] = list(ex.ev(d, st))[0][1]
-        if a.kwarg is not None:
+        if a.kwarg is not None and c.kwargs and "sdict" in c.kwargs:
+            env[a.kwarg.arg] = db.make_value(ex, st, c.kwargs["sdict"], "kwargs")
+        elif a.kwarg is not None:
             kw = c.kwargs or {"known": {}, "open": False}
             env[a.kwarg.arg] = bm.Kwargs({k: db.make_value(ex, st, v, k) if isinstance(v, str) else v
                                           for k, v in kw["known"].items()}, kw.get("open", False))
@@ -1216,6 +1242,8 @@ def verify_function(db: ContractDB, c: Contract, case=None) -> FunctionResult:
             st.fr.env["$yield"] = st.alloc(PList([]))
         for st1, out in ex.run_block(node.body, st):
             res.paths += 1
+            if res.paths > MAX_PATHS or len(ex.obligations) > MAX_OBLIGATIONS or time.time() - t0 > MAX_SECONDS:
+                raise Unsupported(f"path explosion: more than {MAX_PATHS} paths / {MAX_OBLIGATIONS} obligations / {MAX_SECONDS}s")
             kind, val = out
             res.notes.update(st1.notes)
             if kind == "raise":
